@@ -80,6 +80,8 @@ def _a_inc(x):
 # what the implementation is given (items there support attribute access)
 IMPL_FUNCS = {
     "const7": lambda x: 7,
+    "const0": lambda x: 0,      # falsy results are results
+    "constF": lambda x: False,
     "none": lambda x: None,
     "get_a": lambda x: x.get("a"),
     "get_b": lambda x: x.get("b"),
